@@ -51,6 +51,23 @@ def do_case(ctx, inp):
     # the same on a long-lived object: flags were read, then the object is evaluated in place (which, by known finding
     # F-C09a, rewrites the variables of the sub-propositions the dictionary names), then the flags are read again —
     # they must describe the object as it is now, not as it was when first asked
+    if I and all(k in lv for k in I):
+        # leaf-only interpretation, evaluated in place on a long-lived object: the object is as before, and a second,
+        # less specific evaluation on it is still sound for every completion inside the DECLARED bounds
+        o.evaluate_propositions(render_interp(ctx.rng, I))
+        t2 = snap(o)
+        ctx.tags["second-evaluation-on-the-same-object"] += 1
+        if t2 != t:
+            ctx.fail("in-place-evaluate-changed-the-model", {"interpretation": interp_json(I),
+                     "leaves_before": sorted(lv.items()), "leaves_after": sorted(leaves_of(t2).items())}); return
+        res2 = o.evaluate_propositions({})
+        got2 = sorted((k, int(b.lower), int(b.upper)) for k, b in res2.items())
+        for sigma in assignments(ctx.rng, lv, 100 if ctx.quick else 500):
+            for k, lo, hi in got2:
+                val = ref_eval(byid[k], sigma, {})
+                if not (lo <= val <= hi):
+                    ctx.fail("completion-outside-returned-bounds", {"id": k, "returned": [lo, hi], "value": val, "sigma": sigma,
+                             "history": "evaluate_propositions(I) then evaluate_propositions({}) on the same object", "interpretation": interp_json(I)}); return
     if any(k not in lv for k in I):
         o.evaluate_propositions(render_interp(ctx.rng, I))
         t2 = snap(o)
